@@ -93,7 +93,8 @@ let str_outcome = function
 (* one call run: returns unit, prints with tag prefix *)
 type callrun = { cf : cfg; mutable st : state; mutable nstart : int; mutable k : int; mutable stopped : bool; pre : string; id : string }
 
-let mk_callrun id pre cf = { cf; st = init cf; nstart = 0; k = 0; stopped = false; pre; id }
+let mk_callrun ?st0 id pre cf =
+  { cf; st = (match st0 with Some s -> s | None -> init cf); nstart = 0; k = 0; stopped = false; pre; id }
 
 let rec drop n l = if n <= 0 then l else match l with [] -> [] | _ :: t -> drop (n - 1) t
 
@@ -190,6 +191,23 @@ let handle kind id _hd rest =
   | "S", [ops; cfgs; evs] ->
     let gg = build_graph id ops in
     stream_run id "" (parse_scfg gg (toks cfgs)) (toks evs)
+  | "H", ops :: runs when (match _hd with _ :: _ :: _ :: fam :: _ -> String.length fam >= 5 && String.sub fam 0 5 = "share" | _ -> false) ->
+    (* consecutive calls sharing one InterruptibilityState: what the state owns is carried over *)
+    let gg = build_graph id ops in
+    let carry = ref (false, O, O) in
+    List.iteri (fun j run ->
+      let pre = Printf.sprintf "r%d." j in
+      match String.split_on_char ';' run with
+      | [c; e] ->
+        (match toks c with
+         | "call" :: ct ->
+           let cf = parse_cfg gg ct in
+           let (recv, cnt, pend) = !carry in
+           let r = mk_callrun ~st0:(init_carry cf recv cnt pend) id pre cf in
+           List.iter (call_event r) (toks e); call_finish r;
+           carry := (r.st.w.w_recv, r.st.w.w_cnt, r.st.ipend)
+         | _ -> failwith "share: only call runs")
+      | _ -> failwith "bad run") runs
   | "H", ops :: runs ->
     let gg = build_graph id ops in
     List.iteri (fun j run ->
